@@ -59,6 +59,22 @@ def check_unsat_external(formulas, timeout=None, try_cvc5=True):
 def check_unsat(formulas, timeout=None, try_cvc5=True):
     """-> 'unsat' | 'sat' | 'unknown' (+ model for sat)"""
     if EXTERNAL[0]:
+        # fast path: in-process with a small deterministic resource limit (honoured, unlike the wall-clock timeout);
+        # everything that does not finish within it goes to the killable child process
+        s0 = z3.Solver()
+        s0.set('rlimit', 400000)
+        for f in formulas:
+            s0.add(f)
+        t0 = time.time()
+        try:
+            r0 = s0.check()
+        except z3.Z3Exception:
+            r0 = z3.unknown
+        STATS['z3'][0] += 1; STATS['z3'][1] += time.time() - t0
+        if r0 == z3.unsat:
+            return 'unsat', None
+        if r0 == z3.sat:
+            return 'sat', None
         return check_unsat_external(formulas, timeout, try_cvc5)
     s = z3.Solver()
     s.set('timeout', timeout or TIMEOUT_MS)
